@@ -3,6 +3,10 @@ import PyYetiVerif.Model.Binify
 import PyYetiVerif.Model.Fde
 import PyYetiVerif.Model.Rainflow
 import PyYetiVerif.Model.FdePsd
+import PyYetiVerif.Model.FindapFix
+import PyYetiVerif.Model.FdePsdFix
+import PyYetiVerif.Model.BinifyLabels
+import PyYetiVerif.Model.FindapLocate
 /-! Line protocol for C10.  Numbers are exact rationals `n` or `n/d`; `|` separates groups,
 `;` separates cycles.
 
@@ -24,6 +28,14 @@ import PyYetiVerif.Model.FdePsd
                                     → `srs var amax g2max|levels|count|bincount|df4 df8 df12|18 psd-row values`
                                     | `value-error`
   ft  resp Q f T0 nbins | amp cnt ; …   the same from a cycle table (`Fde.fdeTable`), bit patterns
+  bx  right check precision retbins pandas | spec | spec | amp mean cnt ; …    binify, everything returned
+                                    → `rows|index;labels|column;labels|names|ampb|aveb` (`-` = absent)
+  sx  tol right precision retbins pandas | spec | spec | y…     sigcount, everything returned
+  fu  tol | y…                      locate.find_unique  → 0/1 flags | `value-error`
+  fdup tol | v…                     locate.find_duplicates → `flags(code model)|flags(documented meaning)`
+  REPAIR CANDIDATES (models of patched text, used by corpus/c10_candidate_fix_check.py only):
+  xd  tol | y…   patched default findap;  xs  tol | y…   patched numba variant;  xk tol | y…  fast-path flag
+  ffx …          as `ff` with the patched `var_test` (F25)
 -/
 open PyYetiVerif
 
@@ -117,8 +129,66 @@ def fmtTab (t : Fde.TableOut Float) : String :=
     fmtFs [p.g1, p.g2, p.g4, p.g8, p.g12, p.pk2, p.pk4, p.pk8, p.pk12, p.v4, p.v8, p.v12,
            p.dt4, p.dt8, p.dt12, p.dto4, p.dto8, p.dto12]
 
+def fmtFull : Binify.FullRes → String
+  | .valueError => "value-error"
+  | .indexError => "index-error"
+  | .ok r =>
+      let lab := fun (o : Option (List String)) => match o with
+        | none => "-"
+        | some l => ";".intercalate l
+      let nm := match r.names with
+        | none => "-"
+        | some (a, b) => s!"{a};{b}"
+      let bn := match r.bins with
+        | none => "-|-"
+        | some (a, m) => s!"{fmtRats a}|{fmtRats m}"
+      s!"{";".intercalate (r.table.map fmtRats)}|{lab r.index}|{lab r.columns}|{nm}|{bn}"
+
+def fmtMask (m : List Bool) : String := " ".intercalate (m.map fun b => if b then "1" else "0")
+
 def answer (line : String) : String :=
   match groups line with
+  | ["bx", r, c, p, rb, up] :: sa :: sm :: [cs] =>
+      match parseBool r, parseBool c, p.toNat?, parseBool rb, parseBool up, parseSpec sa, parseSpec sm, parseCycles 3 cs with
+      | some r, some c, some p, some rb, some up, some sa, some sm, some cs =>
+          fmtFull (Binify.binifyFull r p rb up c sa sm (toCyc3 cs))
+      | _, _, _, _, _, _, _, _ => "bad-op"
+  | ["sx", t, r, p, rb, up] :: sa :: sm :: [ys] =>
+      match parseRat t, parseBool r, p.toNat?, parseBool rb, parseBool up, parseSpec sa, parseSpec sm, parseRats ys with
+      | some tol, some r, some p, some rb, some up, some sa, some sm, some y =>
+          fmtFull (Binify.sigcountFull tol r p rb up sa sm y)
+      | _, _, _, _, _, _, _, _ => "bad-op"
+  | ["fu", t] :: [ys] => match parseRat t, parseRats ys with
+      | some tol, some y => match Findap.findUnique tol y with
+          | some m => fmtMask m
+          | none => "value-error"
+      | _, _ => "bad-op"
+  | ["fdup", t] :: [ys] => match parseRat t, parseRats ys with
+      | some tol, some y => s!"{fmtMask (Findap.findDuplicates tol y)}|{fmtMask (Findap.dupSpec tol y)}"
+      | _, _ => "bad-op"
+  | ["xd", t] :: [ys] => match parseRat t, parseRats ys with
+      | some tol, some y => match Findap.findapDefFix tol y with
+          | some m => fmtNats ((Findap.selOf m y 0).map (·.1))
+          | none => "value-error"
+      | _, _ => "bad-op"
+  | ["xs", t] :: [ys] => match parseRat t, parseRats ys with
+      | some tol, some y => match Findap.findapSeqFix tol y with
+          | some l => fmtNats (l.map (·.1))
+          | none => "value-error"
+      | _, _ => "bad-op"
+  | ["xk", t] :: [ys] => match parseRat t, parseRats ys with
+      | some tol, some (a :: r) => if Findap.fastOK (Findap.stol tol (a :: r)) a r then "1" else "0"
+      | _, _ => "bad-op"
+  | ["ffx", rs, q, f, t0, n, tol] :: [xs] =>
+      match parseResp rs, parseF q, parseF f, parseF t0, n.toNat?, parseF tol, parseFs xs with
+      | some rs, some q, some f, some t0, some n, some tol, some x =>
+          match Fde.fdeFreq rs q f t0 n tol x with
+          | some o =>
+              let r := o.tab.row
+              let t := { o.tab with psd := Fde.psdRowFix rs q f t0 r.amax o.tab.g2max r.df4 r.df8 r.df12 }
+              s!"{fmtFs [o.srs, o.var, o.tab.row.amax]} {fmtTab t}"
+          | none => "value-error"
+      | _, _, _, _, _, _, _ => "bad-op"
   | ["ab", n, r] :: [xs] => match n.toNat?, parseBool r, parseRats xs with
       | some n, some r, some xs => match Binify.maxOf xs, Binify.minOf xs with
           | some mx, some mn =>
